@@ -14,7 +14,7 @@ def run_stream(pid, st, tier, seed, n, only=None, tag=None):
     if only is not None:
         env["VERIF_ONLY"] = only
     rc, out, obs_path = vf.go_run_driver(pid, st["pkg"], st["test"], ov, env=env, race=st.get("race", False),
-                                         timeout=st.get("timeout", 1800), tag=tag or st["name"])
+                                         timeout=st.get("timeout", 600 if tier == "quick" else 3000), tag=tag or st["name"])
     obs = vf.read_obs(obs_path)
     return rc, out, obs
 
